@@ -50,6 +50,9 @@ def spaces(tier, seed):
                       note="string written with day and month exchanged; judged when the supplied order's reading is valid"))
     sp.append(Product("locale-own-order", {"loc": range(len(LOCS)), "date": SEP_DATES, "plo": [None, True, False],
                                            "sep": ["/", "-"] if not T else SEPS, "worder": ["DMY", "YMD", "MDY"]}))
+    sp.append(Product("explicit-order-beats-locale", {"loc": range(len(LOCS)), "xorder": ORDERS, "plo": [None, True, False],
+                                                      "date": [(2024, 3, 4), (1999, 12, 1), (2010, 11, 12)], "sep": ["/"]},
+                      note="an explicitly supplied DATE_ORDER decides for every locale, whatever PREFER_LOCALE_DATE_ORDER says"))
     if T:
         sp.append(Product("sweep-year", {"order": ORDERS, "sep": ["-", "."], "y": range(1, 10000),
                                          "md": [(1, 2), (2, 29), (12, 31), (3, 4), (11, 12), (7, 25)], "pad": [True], "suffix": [""],
@@ -100,17 +103,21 @@ def run_case(sub, c):
         y, m, d = c["date"] if "date" in c else (2024,) + tuple(c["md"])
         if not cal.valid(y, m, d):
             return None
-        W = c["worder"]
+        W = c["worder"] if "worder" in c else c["xorder"]
         s = write(W, c["sep"], y, m, d, True, "")
         plo = c["plo"]
         own = info.get("date_order")
         O = own if (plo is not False and own) else "MDY"
+        if "xorder" in c:
+            O = c["xorder"]
         if O.index("Y") != W.index("Y"):
             return None
         ey, em, ed = read(O, W, y, m, d)
         if not cal.valid(ey, em, ed):
             return None
         st = {} if plo is None else {"PREFER_LOCALE_DATE_ORDER": plo}
+        if "xorder" in c:
+            st["DATE_ORDER"] = c["xorder"]
         langs, locs = ([lang], None) if loc is None else (None, [loc])
         cls = {"form": sub, "locale": loc or lang, "expected_order": O}
     exp = datetime(ey, em, ed)
